@@ -254,6 +254,21 @@ func (x *Exec) builtin(s *State, b *ssa.Builtin, cc *ssa.CallCommon, args []*Val
 			x.disc.objs[m.Ptr.Obj] = append(x.disc.objs[m.Ptr.Obj], nil)
 		}
 		return nil
+	case "clear":
+		m := args[0]
+		if m.Ptr == nil {
+			x.fail("clear on unsupported value")
+			return nil
+		}
+		if _, isMap := m.T.Underlying().(*types.Map); !isMap {
+			x.fail("clear on a slice")
+			return nil
+		}
+		x.storeTerm(s, m.Ptr, x.zeroOf(m.T))
+		if x.disc != nil {
+			x.disc.objs[m.Ptr.Obj] = append(x.disc.objs[m.Ptr.Obj], nil)
+		}
+		return nil
 	case "min", "max":
 		a, bb := args[0].S, args[1].S
 		if b.Name() == "min" {
